@@ -52,10 +52,10 @@ theorem post_op_exactly_once (v : Variant) (fw : Nat) (cfg : Cfg) (n : Nat) (w :
   refine ⟨⟨sevs, r, tr, hk, tail, he, hsev, ht⟩, ?_, ?_⟩
   · rw [he]
     simp only [List.filter_append, hp]
-    rcases ht with rfl | rfl <;> simp [List.filter, isPostOp, isAttempt]
+    rcases ht with rfl | rfl <;> simp [List.filter, isPostOp]
   · rw [he]
     simp only [List.filter_append, ha]
-    rcases ht with rfl | rfl <;> simp [List.filter, isPostOp, isAttempt]
+    rcases ht with rfl | rfl <;> simp [List.filter, isAttempt]
 
 /-- What "the new certificate and key have been installed" looks like on the trace: the
 certificate was written and the last event is the successful post hook of that write. -/
@@ -222,11 +222,10 @@ theorem pause_after_failure (v : Variant) (hv : v.pauseAfterFail = true) (fw : N
       have hsev := scheduleLoop_events _ _ _ _ _ hs
       rw [List.flatten_cons, he, List.append_assoc, List.append_assoc,
         pauseOK_append_sched _ _ _ _ hsev]
-      have hlt : decide (fw < 1) = false := by simp; omega
       have h0 : decide (fw = 0) = false := by simp; omega
       cases hb : (r == Result.ok)
       · have hne : (r != Result.ok) = true := by simp [bne, hb]
-        simp [pauseOK, hv, hlt, h0, ih, hne]
+        simp [pauseOK, hv, h0, ih, hne]
       · have hne : (r != Result.ok) = false := by simp [bne, hb]
         simp [pauseOK, ih, hne]
 
